@@ -580,6 +580,65 @@ def _hop3(r, idx, fi):
                 r.ok(construct + ' loop', 'every (author, student) pair of zip(...) is compared', items[0][2])
 
 
+def _dict_of_method(idx, ci, after_q, mname, depth=4):
+    """{key: (value expr, defining FuncInfo)} of a method that returns a dict built from a literal, optionally extended
+    from `super().<same method>()` by `d[k] = v` / `d.update({...})`; resolved for an instance of class ci."""
+    mfi = idx.lookup(ci, mname) if after_q is None else idx.lookup_after(ci, after_q, mname)
+    if mfi is None or depth <= 0:
+        return None
+    rets = lib.returns_of(mfi.node)
+    if len(rets) != 1:
+        return None
+
+    def of_expr(e):
+        if isinstance(e, ast.Dict) and all(isinstance(k, ast.Constant) and isinstance(k.value, str) for k in e.keys):
+            return {k.value: (v, mfi) for k, v in zip(e.keys, e.values)}
+        if isinstance(e, ast.Call) and nf.callee_name(e) == 'dict' and not e.args and all(k.arg for k in e.keywords):
+            return {k.arg: (k.value, mfi) for k in e.keywords}
+        if isinstance(e, ast.Call) and isinstance(e.func, ast.Attribute) and e.func.attr == mname and isinstance(e.func.value, ast.Call) \
+                and nf.callee_name(e.func.value) == 'super':
+            return _dict_of_method(idx, ci, mfi.cls.qualname if mfi.cls else None, mname, depth - 1)
+        return None
+    v = rets[0].value
+    if not isinstance(v, ast.Name):
+        return of_expr(v)
+    out = None
+    for n in mfi.node.body:
+        if isinstance(n, ast.Assign) and len(n.targets) == 1 and fl.name_of(n.targets[0]) == v.id:
+            out = of_expr(n.value)
+            if out is None:
+                return None
+            out = dict(out)
+        elif isinstance(n, ast.Assign) and len(n.targets) == 1 and isinstance(n.targets[0], ast.Subscript) \
+                and fl.name_of(n.targets[0].value) == v.id and out is not None and isinstance(lib.subscript_key(n.targets[0]), str):
+            out[lib.subscript_key(n.targets[0])] = (n.value, mfi)
+        elif isinstance(n, ast.Expr) and isinstance(n.value, ast.Call) and isinstance(n.value.func, ast.Attribute) \
+                and n.value.func.attr == 'update' and fl.name_of(n.value.func.value) == v.id and out is not None \
+                and len(n.value.args) == 1 and of_expr(n.value.args[0]) is not None:
+            out.update(of_expr(n.value.args[0]))
+    return out
+
+
+def _call_keywords(idx, ci, fi, call, positional=()):
+    """Keyword view of a call: explicit keywords, positional arguments by the given names, and `**self.helper()` /
+    `**helper_result` resolved through the class of the receiver.  {name: (value expr, FuncInfo in which it is written)}"""
+    out = {}
+    for name, a in zip(positional, call.args):
+        out[name] = (a, fi)
+    for k in call.keywords:
+        if k.arg is not None:
+            out[k.arg] = (k.value, fi)
+        else:
+            v = lib.inline_locals(k.value, fi.node)
+            if isinstance(v, ast.Call) and isinstance(v.func, ast.Attribute) and fl.name_of(v.func.value) == fi.params[0] and not v.args:
+                d = _dict_of_method(idx, ci, None, v.func.attr)
+                if d:
+                    out.update(d)
+            elif isinstance(v, ast.Dict) and all(isinstance(x, ast.Constant) for x in v.keys):
+                out.update({x.value: (y, fi) for x, y in zip(v.keys, v.values)})
+    return out
+
+
 def d2_roles(ctx, idx):
     r = ctx.rule('D2.ROLE', 'author/student roles are preserved at every hop down to within_tolerance(x=author, y=student)',
                  floor=22)
@@ -684,14 +743,18 @@ def d2_roles(ctx, idx):
                     r.undecided(construct + ' [result]', 'the result of within_tolerance is not returned directly', lib.loc(fi, c))
         # hop 5: get_comparer_utils -> within_tolerance(x, y, config['tolerance'])
         for q in (MM, MGC):
-            fi = idx.func(q + '.get_comparer_utils')
+            ci_q = idx.cls(q)
+            fi = idx.lookup(ci_q, 'get_comparer_utils')
+            if fi is None:
+                raise AnalysisError('anchor vanished: %s has no get_comparer_utils' % q)
             short_q = q.split('.')[-1] + '.get_comparer_utils'
             rets = lib.returns_of(fi.node)
             if len(rets) != 1 or not isinstance(rets[0].value, ast.Call):
                 raise AnalysisError('%s: expected a single `return self.Utils(...)`' % short_q)
             ucall = rets[0].value
-            wt = lib.get_kw(ucall, 'within_tolerance', 1)
-            tol = lib.get_kw(ucall, 'tolerance', 0)
+            kws = _call_keywords(idx, ci_q, fi, ucall, ('tolerance', 'within_tolerance'))
+            wt, wt_owner = kws.get('within_tolerance', (None, fi))
+            tol, _ = kws.get('tolerance', (None, fi))
             if not lib.is_config(tol, 'tolerance'):
                 k = nf.config_key(tol) if tol is not None else None
                 if k is not None:
@@ -699,10 +762,10 @@ def d2_roles(ctx, idx):
                                 lib.loc(fi, ucall))
                 else:
                     r.undecided(short_q + ': utils.tolerance', 'not recognised: %s' % short(tol), lib.loc(fi, ucall))
-            if not isinstance(wt, ast.Name) or not idx.has_func(fi.qualname + '.<locals>.' + wt.id):
+            if not isinstance(wt, ast.Name) or not idx.has_func(wt_owner.qualname + '.<locals>.' + wt.id):
                 r.undecided(short_q + ': utils.within_tolerance', 'is not a locally defined function: %s' % short(wt), lib.loc(fi, ucall))
                 continue
-            inner = idx.func(fi.qualname + '.<locals>.' + wt.id)
+            inner = idx.func(wt_owner.qualname + '.<locals>.' + wt.id)
             if len(inner.params) != 2:
                 r.undecided(short_q + ': ' + wt.id, 'expected two parameters (x, y)', inner.loc)
                 continue
@@ -1107,7 +1170,7 @@ def eval_sites(fi, author, student):
     return out['author'], out['student']
 
 
-def scope_names(fi, calls):
+def scope_names(fi, calls, idx=None):
     """Names of the dict objects handed to the evaluation as variable / function scope."""
     names = set()
     for c in calls:
@@ -1116,7 +1179,7 @@ def scope_names(fi, calls):
             for k in ('varscope', 'funcscope'):
                 v = lib.get_kw(c, k)
                 if isinstance(v, ast.Name):
-                    names.add((k, v.id))
+                    names.add((k, fl.resolve_scope_alias(idx, fi, v.id) if idx is not None else v.id))
                 elif v is None:
                     names.add((k, '<default: empty scope>'))
                 else:
@@ -1213,7 +1276,7 @@ def d4_samples(ctx, idx):
                     '`%s` ends the sampling loop early: the remaining samples are never compared' % (short(extra[0]) if extra else ''),
                     lib.loc(fi, extra[0]) if extra else lib.loc(fi, loop))
             # the same scope objects
-            sa, ss = scope_names(fi, [ac]), scope_names(fi, [sc])
+            sa, ss = scope_names(fi, [ac], idx), scope_names(fi, [sc], idx)
             if sa != ss:
                 r.violation(name + ': scope', 'author and student are evaluated on different scope objects (%s vs %s): they do not '
                             'see the same sample' % (sorted(sa), sorted(ss)), lib.loc(fi, sc))
@@ -1657,10 +1720,31 @@ def d5_tables(ctx, idx):
                     r.undecided("MathMixin schema: '%s'" % key, 'entry vanished from math_config_options', idx.cls(MM).loc)
         # the math schema is what the graders extend
         for q in (FGC, IGC, SGC):
-            fi = idx.func(q + '.schema_config')
-            ext = [c for c in lib.calls_named(fi.node, 'extend') if c.args and nf.match('self.math_config_options', c.args[0]) is not None]
-            r.check(bool(ext), q.split('.')[-1] + '.schema_config', 'extends math_config_options',
-                    'the grader schema no longer includes math_config_options (tolerance/samples/failable_evals unvalidated)', fi.loc)
+            ci_q = idx.cls(q)
+            fi = idx.lookup(ci_q, 'schema_config')
+            if fi is None:
+                raise AnalysisError('anchor vanished: %s.schema_config' % q)
+            found, cur, chain_ok = None, fi, True
+            for _ in range(6):
+                ext = [c for c in lib.calls_named(cur.node, 'extend') if c.args and
+                       nf.match('self.math_config_options', lib.inline_locals(c.args[0], cur.node)) is not None]
+                if ext:
+                    found = cur
+                    break
+                uses_super = any(isinstance(n, ast.Attribute) and n.attr == 'schema_config' and isinstance(n.value, ast.Call)
+                                 and nf.callee_name(n.value) == 'super' for n in walk_own(cur.node))
+                nxt = idx.lookup_after(ci_q, cur.cls.qualname, 'schema_config') if cur.cls is not None and uses_super else None
+                if nxt is None:
+                    chain_ok = uses_super
+                    break
+                cur = nxt
+            construct = q.split('.')[-1] + '.schema_config'
+            if found is not None:
+                r.ok(construct, 'extends math_config_options%s' % ('' if found is fi else ' (in %s, reached through super().schema_config)'
+                                                                    % found.qualname.rsplit('.', 2)[-2]), fi.loc)
+            else:
+                fl.absent(r, idx, construct, 'the grader schema no longer includes math_config_options (tolerance/samples/failable_evals '
+                          'unvalidated)', fi.loc)
         # PercentageString
         fi = idx.func('mitxgraders.helpers.validatorfuncs.PercentageString')
         C = 'PercentageString'
@@ -1995,6 +2079,8 @@ BENIGN = [
     Benign('percentage-fstring', VF, "                return \"{percent}%\".format(percent=percent)", "                return f\"{percent}%\""),
     Benign('positive-bounds-local', VF, "        return All(thetype, Range(1, float('inf')))\n    else:\n        return All(thetype, Range(0, float('inf')), NotIn([0]))\n",
            "        bounds = [Range(1, float('inf'))]\n    else:\n        bounds = [Range(0, float('inf')), NotIn([0])]\n    return All(thetype, *bounds)\n"),
+    Benign('utils-fields-helper', MH, "        def _within_tolerance(x, y):\n            return within_tolerance(x, y, self.config['tolerance'])\n        \n        return self.Utils(tolerance=self.config['tolerance'],\n                          within_tolerance=_within_tolerance)\n",
+           "        return self.Utils(**self._comparer_utils_fields())\n\n    def _comparer_utils_fields(self):\n        def _within_tolerance(x, y):\n            return within_tolerance(x, y, self.config['tolerance'])\n        return {'tolerance': self.config['tolerance'], 'within_tolerance': _within_tolerance}\n"),
     Benign('tolerance-any-order', MH, "        Required('tolerance', default='0.01%'): Any(PercentageString, NonNegative(Number)),",
            "        Required('tolerance', default='0.01%'): Any(NonNegative(Number), PercentageString),"),
 ]
